@@ -38,6 +38,8 @@ type SerializeItems<T> = fn(&mut SketchBytes, &[T]);
 type DeserializeItems<T> = fn(SketchSlice<'_>, usize) -> Result<Vec<T>, Error>;
 
 const LG_MIN_MAP_SIZE: u8 = 3;
+/// Largest map size (log2) accepted from a serialized image.
+const LG_MAX_SERIALIZED_MAP_SIZE: u8 = 31;
 const SAMPLE_SIZE: usize = 1024;
 const EPSILON_FACTOR: f64 = 3.5;
 const LOAD_FACTOR_NUMERATOR: usize = 3;
@@ -479,6 +481,12 @@ impl<T: Eq + Hash> FrequentItemsSketch<T> {
         if lg_cur > lg_max {
             return Err(Error::deserial("lg_cur_map_size exceeds lg_max_map_size"));
         }
+        // map sizes are 32-bit quantities in the Java and C++ implementations
+        if lg_max > LG_MAX_SERIALIZED_MAP_SIZE {
+            return Err(Error::deserial(format!(
+                "lg_max_map_size must not exceed {LG_MAX_SERIALIZED_MAP_SIZE}, got {lg_max}"
+            )));
+        }
 
         let is_empty = (flags & EMPTY_FLAG_MASK) != 0;
         if is_empty {
@@ -499,7 +507,8 @@ impl<T: Eq + Hash> FrequentItemsSketch<T> {
             .map_err(insufficient_data("stream_weight"))?;
         let offset_val = cursor.read_u64_le().map_err(insufficient_data("offset"))?;
 
-        let mut values = Vec::with_capacity(active_items);
+        // never reserve more than the remaining input can supply
+        let mut values = Vec::with_capacity(active_items.min(cursor.remaining() / 8));
         for i in 0..active_items {
             values.push(cursor.read_u64_le().map_err(|_| {
                 Error::insufficient_data(format!(
@@ -591,7 +600,8 @@ impl<T: FrequentItemValue> FrequentItemsSketch<T> {
     /// ```
     pub fn deserialize(bytes: &[u8]) -> Result<Self, Error> {
         Self::deserialize_inner(bytes, |mut cursor, num_items| {
-            let mut items = Vec::with_capacity(num_items);
+            // every item occupies at least one byte of input
+            let mut items = Vec::with_capacity(num_items.min(cursor.remaining()));
             for i in 0..num_items {
                 let item = T::deserialize_value(&mut cursor).map_err(|_| {
                     Error::insufficient_data(format!(
